@@ -288,38 +288,36 @@ def _where(log, opn):
 FORMATS = [(203, False, None), (102, True, True), (102, False, False)]
 
 
-def part_sched(args):
-    scenario, nthreads, bound = args
+def sched_one(scenario, nthreads, prefix, lines):
+    """ONE execution of the schedule `prefix` (then default choices), in the calling process (a forked child): returns
+    (choices, nenabled, running_enabled, fresh, failure-or-None, outcome)"""
     root = private_xdg()
-    t = Tally()
     net = F.Net()
     net.install()
     obs = vfs.Observer(root)
     obs.install()
     holder = {}
     renderings = set()
-
-    def server(ex):
-        rq = F.read_request(ex.body)
-        # the same profile in byte-different renderings (as the scan of formats produces)
-        form = "xml" if rq["version"] >= 200 else "sgml"
-        body = F.profile_response(rq["trnuids"][0], vdate(1), URLS, padding=rq["version"] % 4, form=form, pretty=(rq["version"] == 102))
-        renderings.add(body)
-        holder.setdefault("sent", []).append(body)
-        return F.ok(body)
-
-    def make_bodies():
+    try:
         wipe_cache()
-        holder.clear()
-        renderings.clear()
-        obs.log.clear()
-        if scenario == "with-old-cache":
+
+        def server(ex):
+            rq = F.read_request(ex.body)
+            form = "xml" if rq["version"] >= 200 else "sgml"
+            if scenario == "mixed-answers" and rq["version"] >= 200:
+                # this caller is told its profile is current; the other one gets a newer profile
+                if rq["dtprofup_ms"] >= vms(0):
+                    return F.ok(F.profile_response(rq["trnuids"][0], None, {}, status=1))
+            v = 2 if scenario == "mixed-answers" else 1
+            body = F.profile_response(rq["trnuids"][0], vdate(v), URLS, padding=rq["version"] % 4, form=form, pretty=(rq["version"] == 102))
+            renderings.add(body)
+            return F.ok(body)
+
+        if scenario in ("with-old-cache", "mixed-answers"):
             net.handler = lambda ex: F.ok(_rec(holder.setdefault("old", []), F.profile_response(F.read_request(ex.body)["trnuids"][0], vdate(0), URLS, padding=2)))
-            obs.point = net.point = None
             mk_client().request_profile()
         net.handler = server
         client = mk_client()
-        holder["client"] = client
 
         def body(i):
             ver, pretty, close = FORMATS[i % len(FORMATS)]
@@ -331,69 +329,103 @@ def part_sched(args):
 
             return f
 
-        return [body(i) for i in range(nthreads)]
+        prefixes = None
+        if lines:
+            import ofxtools.Client as _C
 
-    orig_init = sched.Scheduler.__init__
-
-    def init(self, *a, **k):
-        orig_init(self, *a, **k)
-        obs.point = self.point
-        net.point = self.point
-
-    def check(x):
+            prefixes = (os.path.realpath(_C.__file__),)
+        sch = sched.Scheduler([body(i) for i in range(nthreads)], prefix, prefixes)
+        obs.point = sch.point
+        net.point = sch.point
+        x = sch.run()
         obs.point = net.point = None
-        t.count("evaluations")
-        t.count("schedules")
-        case = {"part": "sched", "scenario": scenario, "threads": nthreads, "schedule": list(x.choices)}
         whole = set(renderings) | set(holder.get("old", []))
         files = cache_files()
+        fail = None
+        outcome = None
         if x.deadlock:
-            t.fail(f"C15|sched|{scenario}|deadlock", case, "no thread could run")
-            return
-        for i, e in enumerate(x.errors):
-            if e is not None:
-                t.fail(f"C15|sched|{scenario}|concurrent-request-fails-{type(e).__name__}", case, f"thread {i}: {type(e).__name__}: {str(e)[:150]}")
-                return
-        for i, r in enumerate(x.results):
-            if r not in whole:
-                t.fail(f"C15|sched|{scenario}|concurrent-request-returns-mixed-content", case, f"thread {i} returned {len(r or b'')} bytes")
-                return
-        stray = {k: v for k, v in files.items() if k != "ORG15-15.profrs"}
+            fail = ("deadlock", "no thread could run")
+        if fail is None:
+            for i, e in enumerate(x.errors):
+                if e is not None:
+                    fail = (f"concurrent-request-fails-{type(e).__name__}", f"thread {i}: {type(e).__name__}: {str(e)[:150]}")
+                    break
+        if fail is None:
+            for i, r in enumerate(x.results):
+                if r not in whole:
+                    fail = ("concurrent-request-returns-mixed-content", f"thread {i} returned {len(r or b'')} bytes, whole profiles have {sorted(len(w) for w in whole)}")
+                    break
         c = files.get("ORG15-15.profrs")
-        if c is not None and c not in whole:
-            t.fail(f"C15|sched|{scenario}|cache-holds-mixed-content", case, f"{len(c)} bytes, complete renderings have {sorted(len(w) for w in whole)}")
-            return
-        if c is None:
-            t.fail(f"C15|sched|{scenario}|cache-missing-after-successful-requests", case, str(list(files)))
-            return
-        # a later request must succeed
-        sent = []
-        net.handler = honest_handler(1, sent)
-        try:
-            with warnings.catch_warnings():
-                warnings.simplefilter("ignore")
-                data = mk_client().request_profile().read()
-        except Exception as e:
-            t.fail(f"C15|sched|{scenario}|later-request-raises-{type(e).__name__}", case, f"{type(e).__name__}: {str(e)[:150]}")
-            return
-        if data not in whole | set(sent):
-            t.fail(f"C15|sched|{scenario}|later-request-returns-mixed-content", case, "")
-            return
-        t.outcome("sched-ok-" + str(sorted(len(w) for w in whole).index(len(c))))
-
-    sched.Scheduler.__init__ = init
-    try:
-        # determinism self-check: the same schedule twice gives the same observations
-        r = sched.explore(make_bodies, bound, check, record_labels=False)
+        if fail is None and c is None:
+            fail = ("cache-missing-after-successful-requests", str(list(files)))
+        if fail is None and c not in whole:
+            fail = ("cache-holds-mixed-content", f"{len(c)} bytes, complete renderings have {sorted(len(w) for w in whole)}")
+        if fail is None and scenario == "mixed-answers" and not any(c == r for r in renderings) and renderings:
+            fail = ("newer-profile-not-cached", "a newer profile was received by one caller but the cache does not hold it")
+        if fail is None:
+            sent = []
+            net.handler = honest_handler(2 if scenario == "mixed-answers" else 1, sent)
+            try:
+                with warnings.catch_warnings():
+                    warnings.simplefilter("ignore")
+                    data = mk_client().request_profile().read()
+                if data not in whole | set(sent):
+                    fail = ("later-request-returns-mixed-content", "")
+            except Exception as e:
+                fail = (f"later-request-raises-{type(e).__name__}", f"{type(e).__name__}: {str(e)[:150]}")
+        if fail is None:
+            outcome = "sched-ok-" + str(sorted(len(w) for w in whole).index(len(c)))
+        return (list(x.choices), list(x.nenabled), list(x.running_enabled), list(x.fresh), fail, outcome)
     finally:
-        sched.Scheduler.__init__ = orig_init
         obs.uninstall()
         net.uninstall()
-    t.count("sched-executions", r["executions"])
-    t.counts["points_max"] = max(t.counts.get("points_max", 0), r["points_max"])
-    if r["capped"]:
-        t.count("capped")
-    t.sample({"part": "sched", "scenario": scenario, "threads": nthreads, "preemption_bound": bound, "executions": r["executions"], "points_per_execution": r["points_max"]})
+
+
+def part_sched(args):
+    scenario, nthreads, bound, lines = args
+    from vf.core import in_fork
+
+    t = Tally()
+    stack = [[]]
+    executions = 0
+    maxpoints = 0
+    # determinism self-check: the default schedule twice, in two separate children
+    a = in_fork(lambda: sched_one(scenario, nthreads, [], lines))
+    b = in_fork(lambda: sched_one(scenario, nthreads, [], lines))
+    if a[:3] != b[:3] or a[4] != b[4]:
+        raise HarnessError(f"schedule replay is not deterministic ({scenario}): {len(a[0])} vs {len(b[0])} points")
+    while stack:
+        prefix = stack.pop()
+        choices, nenabled, running_enabled, fresh, fail, outcome = in_fork(lambda: sched_one(scenario, nthreads, prefix, lines))
+        executions += 1
+        maxpoints = max(maxpoints, len(choices))
+        t.count("evaluations")
+        t.count("schedules")
+        case = {"part": "sched", "scenario": scenario, "threads": nthreads, "lines": lines, "schedule": choices}
+        if fail:
+            t.fail(f"C15|sched|{scenario}|{fail[0]}", case, fail[1])
+        else:
+            t.outcome(outcome)
+        pre = 0
+        costs = []
+        for i, c in enumerate(choices):
+            costs.append(pre)
+            if c != 0 and running_enabled[i]:
+                pre += 1
+        for i in range(len(prefix), len(choices)):
+            if nenabled[i] <= 1:
+                continue
+            cost = costs[i] + (1 if running_enabled[i] else 0)
+            if bound is not None and cost > bound:
+                continue
+            if lines and running_enabled[i] and not fresh[i]:
+                continue
+            for alt in range(1, nenabled[i]):
+                stack.append(choices[:i] + [alt])
+    t.count("sched-executions", executions)
+    t.counts["points_max"] = max(t.counts.get("points_max", 0), maxpoints)
+    t.sample({"part": "sched", "scenario": scenario, "threads": nthreads, "preemption_bound": bound, "points": "file/HTTP seams" + (" + every line of ofxtools/Client.py (first visits)" if lines else ""),
+              "executions": executions, "points_per_execution": maxpoints})
     return t
 
 
@@ -465,10 +497,47 @@ def part_two_servers(args):
     return t
 
 
+def part_sched_single(args):
+    """one execution of one given schedule prefix (used to spread bound-1 line-level exploration over the pool)"""
+    scenario, nthreads, prefix, lines = args
+    from vf.core import in_fork
+
+    t = Tally()
+    choices, nenabled, running_enabled, fresh, fail, outcome = in_fork(lambda: sched_one(scenario, nthreads, list(prefix), lines))
+    t.count("evaluations")
+    t.count("schedules")
+    t.count("sched-executions")
+    t.counts["points_max"] = len(choices)
+    if fail:
+        t.fail(f"C15|sched|{scenario}|{fail[0]}", {"part": "sched", "scenario": scenario, "threads": nthreads, "lines": lines, "schedule": choices}, fail[1])
+    else:
+        t.outcome(outcome)
+    return t
+
+
+def line_level_jobs(scenario, nthreads):
+    """bound-1 exploration at line granularity: the default execution fixes the branch points (first visit of each line of
+    ofxtools/Client.py by the running thread, and every seam point); each alternative is one further execution"""
+    from vf.core import in_fork
+
+    a = in_fork(lambda: sched_one(scenario, nthreads, [], True))
+    b = in_fork(lambda: sched_one(scenario, nthreads, [], True))
+    if a[:3] != b[:3] or a[4] != b[4]:
+        raise HarnessError(f"schedule replay is not deterministic ({scenario}, line level): {len(a[0])} vs {len(b[0])} points")
+    choices, nenabled, running_enabled, fresh = a[:4]
+    jobs = [("sched1", (scenario, nthreads, (), True))]
+    for i in range(len(choices)):
+        if nenabled[i] <= 1 or (running_enabled[i] and not fresh[i]):
+            continue
+        for alt in range(1, nenabled[i]):
+            jobs.append(("sched1", (scenario, nthreads, tuple(choices[:i]) + (alt,), True)))
+    return jobs
+
+
 def dispatch(chunk):
     t = Tally()
     for part, args in chunk:
-        t.merge({"hist": part_histories, "crash": part_crash, "sched": part_sched, "two": part_two_servers}[part](args))
+        t.merge({"hist": part_histories, "crash": part_crash, "sched": part_sched, "sched1": part_sched_single, "two": part_two_servers}[part](args))
     return t
 
 
@@ -476,12 +545,16 @@ def run(ctx):
     jobs = [("hist", (5 if ctx.quick else 7,))]
     for sc in ("first-write", "overwrite-longer", "overwrite-shorter"):
         jobs.append(("crash", (sc, "coarse" if ctx.quick else "fine")))
-    for sc in ("no-cache", "with-old-cache"):
-        jobs.append(("sched", (sc, 2, 2 if ctx.quick else None)))
+    for sc in ("no-cache", "with-old-cache", "mixed-answers"):
+        jobs.append(("sched", (sc, 2, 2 if ctx.quick else None, False)))
+        # also between the statements of request_profile itself (one preemption, at the first visit of each line)
+        jobs += line_level_jobs(sc, 2)
     if ctx.thorough:
-        jobs.append(("sched", ("no-cache", 3, 2)))
-        jobs.append(("sched", ("with-old-cache", 3, 2)))
+        jobs.append(("sched", ("no-cache", 3, 2, False)))
+        jobs.append(("sched", ("with-old-cache", 3, 2, False)))
+        jobs.append(("sched", ("mixed-answers", 2, 2, True)))
     jobs.append(("two", ()))
+    jobs.sort(key=lambda j: 0 if j[0] in ("sched", "hist") else 1)
     tally = ctx.pmap(dispatch, jobs, chunk=1)
     pm = tally.counts.pop("points_max", 0)
     if tally.counts.get("transitions", 0) < 100 or tally.counts.get("crash-states", 0) < 10 or tally.counts.get("schedules", 0) < 20:
@@ -500,7 +573,8 @@ def run(ctx):
         "current instance) so that hidden per-instance state cannot hide behind de-duplication; every transition replays the history on the real request_profile and compares the request's "
         "DTPROFUP, success/failure, returned bytes and cache file with the model; (2) 3 cache-writing scenarios (first write, overwrite with longer, with shorter) x every crash state "
         f"(every prefix of the file-operation log x torn prefixes of pending writes, {'coarse' if ctx.quick else 'every byte'}) -> recovery by a fresh client; (3) 2 concurrent "
-        f"request_profile calls on one client (with / without an older cache), {'preemption bound 2' if ctx.quick else 'all interleavings'} of their file and HTTP points"
+        f"request_profile calls on one client (no cache / an older cache / an older cache with one caller told 'up to date' and the other sent a newer profile), {'preemption bound 2' if ctx.quick else 'all interleavings'} "
+        "of their file and HTTP points, and one preemption at the first visit of every line of ofxtools/Client.py; every execution runs in its own forked process"
         + ("; 3 calls with bound 2" if ctx.thorough else "") + "; (4) 6 client pairs x both orders against two servers",
         "exhaustive": True,
     }
@@ -525,7 +599,7 @@ def replay(ctx, case):
     if part == "crash":
         t = part_crash((case["scenario"], "coarse"))
     elif part == "sched":
-        t = part_sched((case["scenario"], case["threads"], 2))
+        t = part_sched((case["scenario"], case["threads"], 2, bool(case.get("lines"))))
     else:
         t = part_two_servers(())
     for sig, (n, c, d) in sorted(t.fails.items()):
